@@ -293,7 +293,7 @@ func sensitiveUses(c *Ctx, fn *ssa.Function) []ssa.Instruction {
 				}
 			}
 			// helpers of the same type that do the touching for us
-			if sc := staticTarget(ci.Common()); sc != nil && sc.Signature.Recv() != nil && sc.Pkg == fn.Pkg && !isExportedEntry(sc) {
+			if sc := staticTarget(ci.Common()); sc != nil && (sc.Signature.Recv() != nil || actsOnReceiverOf(sc, fn)) && sc.Pkg == fn.Pkg && !isExportedEntry(sc) {
 				if len(sensitiveUsesShallow(sc)) > 0 || storesGuardedField(sc) {
 					out = append(out, in)
 				}
@@ -309,6 +309,16 @@ func sensitiveUses(c *Ctx, fn *ssa.Function) []ssa.Instruction {
 		})
 	}
 	return out
+}
+
+// actsOnReceiverOf: sc is a plain function whose first parameter has the receiver type of fn (a
+// helper method written as a function).
+func actsOnReceiverOf(sc, fn *ssa.Function) bool {
+	if fn.Signature.Recv() == nil || sc.Signature.Recv() != nil || sc.Signature.Params().Len() == 0 {
+		return false
+	}
+	a, b := namedOf(sc.Signature.Params().At(0).Type()), namedOf(fn.Signature.Recv().Type())
+	return a != nil && b != nil && a.Obj() == b.Obj()
 }
 
 // isBackingLoad: the value is the backing reader of a store (payload window).
